@@ -185,13 +185,16 @@ func init() {
 				// alternate the way the bytes are delivered: the result must not depend on it, nor on
 				// what an earlier call left behind (e.g. in a pooled reader)
 				var s *stack.Snapshot
-				switch rep % 3 {
+				switch rep % 4 {
 				case 0:
 					s = parseDump(in.dump, in.opts)
 				case 1:
 					s, _, _, _ = scanOnce(newSource([]byte(in.dump), nil, 0, nil, true), discard{}, in.opts)
-				default:
+				case 2:
 					s, _, _, _ = scanOnce(newSource([]byte(in.dump+"trailing text\nmore\n"), nil, 0, nil, true), discard{}, in.opts)
+				default:
+					// some text in front, delivered in pieces that do not respect lines
+					s, _, _, _ = scanOnce(newSource([]byte("a line of text in front of the dump, some fifty bytes\n"+in.dump), nil, 40+rng.Intn(220), nil, false), discard{}, in.opts)
 				}
 				if s == nil {
 					if first[i] != "" {
